@@ -722,3 +722,64 @@ def c13(tier):
     bounds = ("completed submissions produced by the real code for REP graphs x single failures (rerun succeeds / fails again) x cancel flags x one refused batch (missing jobs) x reports on/off, "
               "then resubmit-jobs with all 8 flag combinations run to completion (and a second resubmission); resubmit-jobs as a free-start actor at every point of an incomplete submission from 3 hosts; cancel then resubmit")
     return explore_check("C13", tier, tasks, S_RULE, COMMON_ASSUMPTIONS, dict(bounds=bounds))
+
+
+# ------------------------------------------------------------------------------ C15
+def stage(names, bb=None, size=1, mode="hpc", max_nodes=None, **kw):
+    bb = bb or [[] for _ in names]
+    jobs = [S.job(n, [names[j] for j in bb[i]]) for i, n in enumerate(names)]
+    st = dict(jobs=jobs, group=S.group(size=size, max_nodes=max_nodes), mode=mode)
+    st.update(kw)
+    return st
+
+
+STAGE_SHAPES = {
+    "one": lambda k: stage([f"s{k}a"]),
+    "two-batches": lambda k: stage([f"s{k}a", f"s{k}b"], size=1),
+    "one-batch2": lambda k: stage([f"s{k}a", f"s{k}b"], size=2),
+    "chain": lambda k: stage([f"s{k}a", f"s{k}b"], bb=[[], [0]], size=1),
+    "local": lambda k: stage([f"s{k}a", f"s{k}b"], mode="local", size=2),
+}
+
+
+def c15_tasks(tier):
+    tasks = []
+    shapes = list(STAGE_SHAPES)
+    nmax = 3 if tier == "quick" else 4
+    for n in range(1, nmax + 1):
+        combos = list(itertools.product(shapes, repeat=n))
+        if n == 3:
+            combos = [c for c in combos if len(set(c)) >= 2][:: (4 if tier == "quick" else 1)]
+        if n == 4:
+            combos = combos[::25]
+        for combo in combos:
+            for fails in ((), ("s1a",)) if tier == "thorough" or n <= 2 else ((),):
+                stages = [STAGE_SHAPES[s](k) for k, s in enumerate(combo, start=1)]
+                njobs = sum(len(s["jobs"]) for s in stages)
+                rec = dict(name="rec", argv=["jade", "try-submit-jobs", "{stage}"], host="login2",
+                           guard="pipeline_idle_incomplete", repeat=njobs + n + 2)
+                sc = S.scenario([j for s in stages for j in s["jobs"]], actors=[rec], login="pipeline",
+                                exit_codes={f: 1 for f in fails})
+                sc["stages"] = stages
+                bud = (1, 0) if (n <= 2 or tier == "thorough") else (0, 0)
+                tasks.append(dict(id=f"pipe-{'+'.join(combo)}-f{len(fails)}-b{bud[0]}", scen=sc,
+                                  oracles=["Obs", "C15"], budget=bud, cls="pipeline"))
+                if not fails and ((tier == "thorough" and n in (2, 3)) or (n == 2 and combo[0] in ("one", "two-batches"))):
+                    # a duplicated trigger for stage 2 (re-run by hand or delivered twice), at any later point
+                    import copy
+
+                    sc2 = copy.deepcopy(sc)
+                    sc2["actors"].append(dict(name="dup", argv=["jade", "pipeline", "submit-next-stage", "{out}",
+                                                                "--stage-num=2", "--return-code=0"],
+                                              host="login3", guard="pipeline_stage2_started"))
+                    tasks.append(dict(id=f"pipe-{'+'.join(combo)}-dup", scen=sc2, oracles=["Obs", "C15"],
+                                      budget=(0, 0), cls="pipeline+duplicate-trigger"))
+    return tasks
+
+
+@check("C15")
+def c15(tier):
+    tasks = c15_tasks(tier)
+    bounds = ("pipelines of 1-3 (thorough 4) stages over 5 stage shapes (1 job; 2 jobs in 2 batches; 2 jobs in 1 batch; 2-job chain; local), stage configs with and without their own submission groups, "
+              "a failing job in stage 1, a duplicated stage-2 trigger at any later point; jade pipeline submit as the login process, next stages triggered by the real submit-next-stage; 1 preemption on <=2-stage pipelines (all in thorough) with the recovery actor on the current stage")
+    return explore_check("C15", tier, tasks, S_RULE, COMMON_ASSUMPTIONS + ["auto-config commands are not explored (they write relative to the process cwd); stage config files only"], dict(bounds=bounds))
